@@ -81,6 +81,28 @@ PROPS = {
         ],
         trusted=STD_TRUST,
     ),
+    "C06": dict(
+        units=["parse"],
+        level="proof",
+        min_obligations=40,
+        replay_family="c06",
+        explanation="The three sources (SliceRead, StrRead, IoRead over LineColIterator) are extracted from /repo and each verified against ONE shared "
+                    "contract (trait ReadBase/Read restated with specs): next/peek/discard are exact functions of the unread bytes `rest()`, with the "
+                    "protocol `discard only after a successful peek` (ghost `peeked`) enforced at all 40 discard sites; the three symbol scanners all satisfy "
+                    "sym_result; the parser is generic code verified once against that contract, so it cannot distinguish sources except through it. "
+                    "Read errors: a ghost flag `failed()` is raised by the stream model when the underlying iterator yields Err; every function that touches "
+                    "the source carries io_ok(result, failed_before, failed_after): a failure raised during the call makes the call return Err, and an "
+                    "I/O-category error is only ever produced when the source failed - so a read failure is never turned into a value or into end of input, "
+                    "for all byte streams and all failure points.",
+        assumptions=[
+            "std::io::Bytes<R> (splitting into read calls, retry on Interrupted) is std code: modelled by trait ByteIter (prophetic `ahead`, `gone`, `broken`), "
+            "ASSUMED: an Err item delivers no byte and loses none, None is only reported when nothing is ahead, fewer than usize::MAX bytes are delivered",
+            "the string / character scanners of the three sources carry the shared safety+io_ok contract only; that the slice and stream versions decode the "
+            "same string CONTENT is not proved (bounded stand-in: replay family c06 compares all three sources on a corpus; never counted as proved)",
+            "IoRead is verified with `R` standing for io::Bytes<R> (struct field type rewritten), `reader.bytes()` dropped from IoRead::new",
+        ],
+        trusted=STD_TRUST,
+    ),
     "C12": dict(
         units=["parse"],
         level="proof",
@@ -105,9 +127,9 @@ PROPS = {
                     "unread input), the parser invariant 1 <= remaining_depth <= 128 restored on EVERY exit, and a recursion measure (remaining_depth, rank) "
                     "that must strictly decrease at every recursive call - so native recursion depth is bounded by the depth budget, for all bytes, all "
                     "option sets and any source satisfying the Read contract.",
-        assumptions=["IoRead (stream source) and the datum API are covered by their own units / not yet under contract: see not_covered",
+        assumptions=["the datum API is not yet under contract: see not_covered",
                      "allocation failure and stack size are not modelled (Vec::push assumed to succeed)"],
-        not_covered=["IoRead::*, LineColIterator", "next_datum / parse_list_meta / parse_vector_meta", "f64_from_parts body (float arithmetic)"],
+        not_covered=["next_datum / parse_list_meta / parse_vector_meta", "f64_from_parts body (float arithmetic)"],
         trusted=STD_TRUST,
     ),
 }
